@@ -71,7 +71,7 @@ def make_retry_sender(E, done):
 
 
 for _done in (False, True):
-    @contract('connection.RetrySender.__call__', props=['C05', 'C07'], variant='already-delivered' if _done else 'in-flight')
+    @contract('connection.RetrySender.__call__', props=['C05', 'C07', 'C04'], variant='already-delivered' if _done else 'in-flight')
     class _:
         """a guaranteed message may travel in several datagrams (it stays in the resend table until acked): the user callback
         must fire on the FIRST acknowledgement only (exactly once, with True), and a timeout re-queues the identical message"""
